@@ -272,6 +272,19 @@ func (w *dtWalker) addrKey(st *dtState, a ssa.Value) string {
 			return ""
 		}
 		if cv, ok := w.constOfVal(st, x.Index); ok {
+			// X[lo:hi][i] == X[lo+i]
+			if j := strings.LastIndex(base, "["); j >= 0 && strings.HasSuffix(base, "]") && strings.Contains(base[j:], ":") {
+				lo := strings.SplitN(base[j+1:len(base)-1], ":", 2)[0]
+				if lo == "" {
+					lo = "0"
+				}
+				var l, i int64
+				if _, err := fmt.Sscan(lo, &l); err == nil {
+					if _, err := fmt.Sscan(cv.ExactString(), &i); err == nil {
+						return fmt.Sprintf("%s[%d]", base[:j], l+i)
+					}
+				}
+			}
 			return base + "[" + cv.ExactString() + "]"
 		}
 		if ik := w.keyOf(st, x.Index); ik != "" {
@@ -492,6 +505,10 @@ func (w *dtWalker) execCall(st *dtState, call *ssa.Call) {
 				ss = append(ss, e.ExactString())
 			}
 			args = append(args, "{"+strings.Join(ss, ",")+"}")
+			continue
+		}
+		if ks, ok := w.sliceElemKeys(st, a); ok {
+			args = append(args, "{"+strings.Join(ks, ",")+"}")
 			continue
 		}
 		if cv, ok := w.constOfVal(st, a); ok {
@@ -756,4 +773,56 @@ func (w *dtWalker) forkNil(st *dtState, key string, trueMeansNonNil bool) (strin
 		return "forkneg", key, "nil", nil
 	}
 	return "fork", key, "nil", nil
+}
+
+// sliceElemKeys describes a slice literal / varargs pack by the keys of its elements (index order).
+func (w *dtWalker) sliceElemKeys(st *dtState, v ssa.Value) ([]string, bool) {
+	sl, ok := v.(*ssa.Slice)
+	if !ok {
+		return nil, false
+	}
+	a, ok := sl.X.(*ssa.Alloc)
+	if !ok {
+		return nil, false
+	}
+	if _, isArr := a.Type().Underlying().(*types.Pointer).Elem().Underlying().(*types.Array); !isArr {
+		return nil, false
+	}
+	byIdx := map[int64]string{}
+	max := int64(-1)
+	for _, ref := range *a.Referrers() {
+		ia, ok := ref.(*ssa.IndexAddr)
+		if !ok {
+			continue
+		}
+		idx, ok := constInt(ia.Index)
+		if !ok {
+			return nil, false
+		}
+		for _, r2 := range *ia.Referrers() {
+			if s, ok := r2.(*ssa.Store); ok {
+				k := ""
+				if cv, ok := w.constOfVal(st, s.Val); ok {
+					k = cv.ExactString()
+				} else {
+					k = w.keyOf(st, s.Val)
+				}
+				if k == "" {
+					k = "?"
+				}
+				byIdx[idx] = k
+				if idx > max {
+					max = idx
+				}
+			}
+		}
+	}
+	if max < 0 {
+		return nil, false
+	}
+	out := make([]string, max+1)
+	for i := range out {
+		out[i] = byIdx[int64(i)]
+	}
+	return out, true
 }
